@@ -167,6 +167,7 @@ def client_case(case):
         fs.completion = None if case["completion"] is None else case["completion"].encode("latin-1")
     result = {}
     tmp = None
+    w.net.blackholes = set(case.get("blackholes", ()))
     try:
         w.run(fs.start())
 
@@ -176,7 +177,7 @@ def client_case(case):
             tmp = _b.TempDir()
 
         async def main():
-            c = a.Client(path_io_factory=a.MemoryPathIO if tmp is None else a.PathIO)
+            c = a.Client(path_io_factory=a.MemoryPathIO if tmp is None else a.PathIO, **case.get("client_kwargs", {}))
             try:
                 await c.connect("127.0.0.1", 2121)
                 await c.login("u", "p")
@@ -322,6 +323,15 @@ def client_items(tier):
             cases.append({"op": "list", "raw": raw, "listing": L(good + b"\r\n" + bad + b"\r\n" + good + b"\r\n"),
                           "mutated": "bad-line-and-no-clean-completion", "expect_lines": 3, "completion": completion,
                           "strict_value_error": True})
+    # a passive-mode answer that names an address which never answers: a client with time-outs configured gives up
+    for verb, rep in (("EPSV", "229 ok (|||9|)\r\n"), ("PASV", "227 ok (127,0,0,1,0,9)\r\n")):
+        replies = {verb: rep}
+        if verb == "PASV":
+            replies["EPSV"] = "500 no\r\n"
+        for op in ("list", "download", "stat"):
+            cases.append({"op": op, "raw": None, "replies": dict(replies), "listing": L(MLSX[0] + b"\r\n"),
+                          "mutated": "passive-answer-to-a-black-hole", "blackholes": [9],
+                          "client_kwargs": {"connection_timeout": 1, "socket_timeout": 1}})
     # MLSD lines without a pathname
     for m in (b"type=file;size=3;", b"Type=file;Size=3;Modify=20240115123000;", b"type=file;size=3; ", b"garbage", b";",
               b"type=dir;"):
